@@ -946,6 +946,8 @@ func (s *State) evalForInteger(fe *ast.ForExpression, start *int64, end int64, n
 	if useReg {
 		var ok bool
 		register, newBody, ok = setupRegister(s.env, name, int64(startValue), fe.Body)
+		// Registers are a stack: give it back on every way out of the loop (end, break, return, error, panic).
+		defer s.env.ReleaseRegister(register)
 		if !ok {
 			return s.Errorf("for loop register %s shouldn't be modified inside the loop", name)
 		}
@@ -977,9 +979,6 @@ func (s *State) evalForInteger(fe *ast.ForExpression, start *int64, end int64, n
 		default:
 			lastEval = nextEval
 		}
-	}
-	if ptr != nil {
-		s.env.ReleaseRegister(register)
 	}
 	return lastEval
 }
